@@ -37,6 +37,7 @@ def run(ctx: Ctx) -> None:
 
     special_keys = set(_sbr(G)) | set(repo.const("tokens", "REPEATED_KEYS"))
     n = 0
+    first_gap = None
     for t in S.types():
         for k, node in sorted(S.slots(t).items()):
             if k in special_keys:
@@ -44,13 +45,21 @@ def run(ctx: Ctx) -> None:
             for vc in printer.classes_for(S, t, k, node):
                 for q in ('"', "'"):
                     n += 1
-                    kind, tmpl = PM.value_template(t, k, vc, q)
+                    try:
+                        kind, tmpl = PM.value_template(t, k, vc, q)
+                    except AnalysisError as ex_cell:
+                        # this cell cannot be evaluated: go on (a violation in another cell must not be hidden by
+                        # it) and end the run as incomplete afterwards
+                        first_gap = first_gap or ex_cell
+                        continue
                     construct = f"{t}.{k} | {vc.name}"
                     val = vc.make(q)
                     want_desc, good = _judge(t, k, vc, q, kind, tmpl, val)
                     shown = tmpl.describe() if isinstance(tmpl, SStr) else tmpl
                     ctx.check(good, "M1", construct, loc_fv, f"quote {q}: {shown}", f"{k.upper()} with a value of class {vc.name} is written as {shown!r} (quote {q}); required: {want_desc}")
     ctx.units.update({"slot_class_quote_cells": n, "pai_evaluations": PM.evals})
+    if first_gap is not None:
+        raise first_gap
 
     # ---- M4 the same object printed twice ------------------------------------------------------------
     ctx.rule("M4", "a list value is written the same way the second time the same list object is printed (by the same or another printer): formatting does not rewrite the caller's value", 20)
